@@ -30,6 +30,21 @@ class LazyZarrArray(ArrayMetadata):
         self.path = path
         self.kwargs = kwargs
 
+    def retarget(self, target: Union[zarr.Array, "LazyZarrArray"]) -> None:
+        """Change where this array is stored.
+
+        The object is shared by every plan and proxy that refers to the array, so
+        arrays derived from it earlier read the data from the new location too.
+        """
+        if isinstance(target, LazyZarrArray):
+            self.store = target.store
+            self.path = target.path
+            self.kwargs = target.kwargs
+            self._delegate = getattr(target, "_delegate", None)
+        else:
+            self._delegate = target
+        self._retargeted = True
+
     def create(
         self, mode: Literal["r", "r+", "a", "w", "w-"] | None = "w-"
     ) -> zarr.Array:
@@ -44,6 +59,8 @@ class LazyZarrArray(ArrayMetadata):
             The mode to open the Zarr array with using ``zarr.open``.
             Default is 'w-', which means create, fail it already exists.
         """
+        if getattr(self, "_delegate", None) is not None:
+            return self._delegate
         target = open_storage_array(
             self.store,
             mode=mode,
@@ -60,6 +77,8 @@ class LazyZarrArray(ArrayMetadata):
 
         Note that the Zarr array must have been created or this method will raise an exception.
         """
+        if getattr(self, "_delegate", None) is not None:
+            return self._delegate
         # r+ means read/write, fail if it doesn't exist
         return open_storage_array(
             self.store,
